@@ -33,6 +33,7 @@ OUTSIDE = ['SHA-512/RIPEMD/SHA-256 values', 'zlib/base64 decoding of downloaded 
            'header files containing zero-filled placeholder chunks', 'compact targets with size byte > 0x20']
 
 MAX_TARGET = Headers.max_target
+BUDGET_S = {'thorough': 5400}        # runaway guard only: the four size bytes decided through cvc5 add about 15 minutes on 16 cores
 
 
 # ------------------------------------------------------------------------------------------------ (i) compact encoding
